@@ -102,6 +102,9 @@ class _Lifter(ast.NodeTransformer):
                                                      attr=a.name, ctx=ast.Load()))
                 out.append(ast.copy_location(new, node))
             return out
+        if node.module == 'pathlib' and node.level == 0 and [a.name for a in node.names] == ['Path']:
+            # the file system is environment: Path(file).read_text() must reach the in-memory transport
+            return _assign(node.names[0].asname or 'Path', '__vPath__', node)
         return node
 
 
@@ -173,6 +176,7 @@ def identity_helpers():
         '__vint__': int, '__vfloat__': float, '__vround__': round, '__vcomplex__': complex,
         '__visinstance__': isinstance,
         '__vmath__': math, '__vtruenp__': numpy, '__vgetitem__': operator.getitem, '__vopen__': open,
+        '__vPath__': __import__('pathlib').Path,
     }
 
 
